@@ -21,6 +21,8 @@ def main(argv=None):
     np.seterr(all="ignore")
     mod = importlib.import_module("mc.props." + pid.lower())
     if a.replay:
+        from . import space as _space
+        _space.INTERFERENCE["all"] = True
         with open(a.replay) as f:
             rec = json.load(f)
         case = core.unfloat(rec["case"] if "case" in rec and "site" in rec else rec)
